@@ -12,6 +12,7 @@ use std::collections::BTreeSet;
 use std::rc::Rc;
 
 pub struct RunResult {
+    pub crash: CrashLog,
     pub step_calls: Vec<u64>,
     pub violation: Option<Violation>,
     pub trace: Vec<Step>,
@@ -65,6 +66,7 @@ impl World {
             prop: prop.to_string(),
             obs: 0x0B5,
             step_calls: vec![],
+            crash: CrashLog::default(),
         })
     }
 
@@ -115,6 +117,7 @@ pub fn run(cfg: RunCfg, prop: &str, src: &mut dyn StepSource, max_steps: usize) 
         Ok(s) => s,
         Err(e) => {
             return RunResult {
+                crash: CrashLog::default(),
                 step_calls: vec![],
                 violation: Some(viol("HARNESS", "volume-build-failed", e, 0)),
                 trace: vec![],
@@ -132,6 +135,7 @@ pub fn run_on(cfg: RunCfg, store: Store, prop: &str, src: &mut dyn StepSource, m
         Ok(w) => w,
         Err(e) => {
             return RunResult {
+                crash: CrashLog::default(),
                 step_calls: vec![],
                 violation: Some(viol("HARNESS", "volume-not-coherent", e, 0)),
                 trace: vec![],
@@ -156,14 +160,15 @@ pub fn run_on(cfg: RunCfg, store: Store, prop: &str, src: &mut dyn StepSource, m
     w.stats.fired = w.disk.borrow().fired.clone();
     w.stats.clock_span_s = w.clock.span_s();
     w.stats.device_calls = w.disk.borrow().total_calls;
+    w.crash.final_epoch = w.disk.borrow().epoch;
     let fp = w.disk.borrow().store.fingerprint();
-    RunResult { step_calls: w.step_calls.clone(), violation, trace, stats: w.stats.clone(), final_fingerprint: fp, obs_hash: w.obs }
+    RunResult { crash: std::mem::take(&mut w.crash), step_calls: w.step_calls.clone(), violation, trace, stats: w.stats.clone(), final_fingerprint: fp, obs_hash: w.obs }
 }
 
 fn session(w: &mut World, src: &mut dyn StepSource, trace: &mut Vec<Step>, max_steps: usize) -> Result<SessionEnd, Violation> {
     w.stats.sessions += 1;
     let o = w.cfg.oracles.clone();
-    let full = o.dirty_bit || o.write_audit || o.raw_diff || o.fat_copies || o.stamps || o.fail_atomic;
+    let full = o.crash_log || o.dirty_bit || o.write_audit || o.raw_diff || o.fat_copies || o.stamps || o.fail_atomic;
     {
         let mut d = w.disk.borrow_mut();
         d.log_mode = if full { LogMode::Full } else { LogMode::Meta };
@@ -173,6 +178,9 @@ fn session(w: &mut World, src: &mut dyn StepSource, trace: &mut Vec<Step>, max_s
         // entries 0 and 1 of every copy, and the padding entries beyond N+1 (bounded to one sector's worth)
         let head_len = (2 * g.fat_bits as usize + 7) / 8;
         w.mount_fat_head = (0..g.nfats).flat_map(|c| d.store.get(g.fat_copy_off(c), head_len)).collect();
+    }
+    if w.cfg.oracles.crash_log && w.crash.start.is_none() {
+        w.crash.start = Some(w.disk.borrow().store.clone());
     }
     w.mounted_dirty = w.mount_status & 1 != 0;
     w.structural = false;
@@ -348,6 +356,10 @@ pub struct Outcome {
     pub touch_paths: Vec<Vec<Vec<u16>>>,
     pub is_file_op: bool,
     pub mutating: bool,
+    /// file the (file-handle) op acted on
+    pub file_node: Option<NodeId>,
+    /// object removed / renamed by the op
+    pub victim: Option<NodeId>,
 }
 
 fn ancestors(m: &Model, n: NodeId, out: &mut Outcome) {
@@ -487,7 +499,7 @@ pub fn exec_step(w: &mut World, s: &mut Session, step: &Step) -> Result<(), Viol
     let now = w.clock.get();
     let step_no = w.step_no;
     let prop = w.prop.clone();
-    let mut out = Outcome { res: Ok(()), touch: vec![], touch_paths: vec![], is_file_op: false, mutating: false };
+    let mut out = Outcome { res: Ok(()), touch: vec![], touch_paths: vec![], is_file_op: false, mutating: false, file_node: None, victim };
     let mut flux_file: Option<NodeId> = None;
 
     macro_rules! lib {
@@ -831,6 +843,7 @@ pub fn exec_step(w: &mut World, s: &mut Session, step: &Step) -> Result<(), Viol
             let Some(Some(h)) = s.files.get_mut(*f as usize) else { return Ok(()) };
             out.is_file_op = true;
             out.mutating = true;
+            out.file_node = Some(h.node);
             ancestors(&w.model, h.node, &mut out);
             flux_file = Some(h.node);
             let mut data = vec![0u8; *len as usize];
@@ -980,6 +993,7 @@ pub fn exec_step(w: &mut World, s: &mut Session, step: &Step) -> Result<(), Viol
             let Some(Some(h)) = s.files.get_mut(*f as usize) else { return Ok(()) };
             out.is_file_op = true;
             out.mutating = true;
+            out.file_node = Some(h.node);
             ancestors(&w.model, h.node, &mut out);
             flux_file = Some(h.node);
             let r = lib!(h.f.truncate());
@@ -1001,6 +1015,7 @@ pub fn exec_step(w: &mut World, s: &mut Session, step: &Step) -> Result<(), Viol
         Op::Flush { f } => {
             let Some(Some(h)) = s.files.get_mut(*f as usize) else { return Ok(()) };
             out.is_file_op = true;
+            out.file_node = Some(h.node);
             ancestors(&w.model, h.node, &mut out);
             let r = lib!(h.f.flush());
             out.res = r.map_err(|e| map_err(&e));
@@ -1015,6 +1030,7 @@ pub fn exec_step(w: &mut World, s: &mut Session, step: &Step) -> Result<(), Viol
             let Some(slot) = s.files.get_mut(*f as usize) else { return Ok(()) };
             let Some(h) = slot.take() else { return Ok(()) };
             out.is_file_op = true;
+            out.file_node = Some(h.node);
             ancestors(&w.model, h.node, &mut out);
             lib!(drop(h));
             w.last_parsed = None;
@@ -1031,6 +1047,7 @@ pub fn exec_step(w: &mut World, s: &mut Session, step: &Step) -> Result<(), Viol
         Op::SetTime { f, which, t } => {
             let Some(Some(h)) = s.files.get_mut(*f as usize) else { return Ok(()) };
             out.is_file_op = true;
+            out.file_node = Some(h.node);
             ancestors(&w.model, h.node, &mut out);
             let n = &mut w.model.nodes[h.node];
             match which {
